@@ -13,11 +13,14 @@ LATE = 20000    # more polls than any scripted depth-limited search makes: the l
 
 def canon(out):
     """engine transcript -> canonical list of lines (markers dropped, time masked, display collapsed, readyok moved to the front of its search block)"""
-    lines = out.split('\n'); res = []; i = 0; block = None
+    lines = out.split('\n'); res = []; i = 0; block = None; requeued = None
     while i < len(lines):
         l = lines[i]
         if l.startswith('@READ go') or (l.startswith('@READ') and False):
             block = []; i += 1; continue
+        if l.startswith('@POLLREAD '):
+            x = l[len('@POLLREAD '):].strip()
+            if x not in ('isready', '', 'stop'): requeued = x      # handed back to the main loop: executed next, without a @READ marker
         if l.startswith('@'):
             if l.startswith('@READ-PAST-END'): res.append('PANIC')
             i += 1; continue
@@ -33,6 +36,8 @@ def canon(out):
             else: block.append(l)
             if l.startswith('bestmove'):
                 res += block; block = None
+                if requeued is not None and requeued.split()[:1] and requeued.split()[0].lower() == 'go': block = []
+                requeued = None
         else: res.append(l)
         i += 1
     if block: res += block
